@@ -30,6 +30,8 @@ func (s sym) String() string {
 		return fmt.Sprintf("H%d[es=%v,eh=%v]", s.ID, s.ES, s.EH)
 	case 'C':
 		return fmt.Sprintf("C%d[eh=%v]", s.ID, s.EH)
+	case 'M':
+		return fmt.Sprintf("H%d[es,eh,malformed]", s.ID)
 	case 'D':
 		return fmt.Sprintf("D%d[es=%v]", s.ID, s.ES)
 	case 'R':
@@ -92,6 +94,9 @@ func c08Alphabet() []sym {
 		sym{K: 'D', ID: idFresh, ES: true}, sym{K: 'R', ID: idFresh}, sym{K: 'W', ID: idFresh, W: 1}, sym{K: 'P', ID: idFresh}, sym{K: 'P', ID: idLow},
 		sym{K: 'p'}, sym{K: 's'}, sym{K: 'w'}, sym{K: 'u'},
 		sym{K: 'P', ID: idA, XF: true}, sym{K: 'W', ID: idA, W: 1, XF: true}, sym{K: 'p', XF: true},
+		// a complete request whose header list is malformed (a connection-specific field): a stream error that uses the id up
+		sym{K: 'M', ID: idA, ES: true, EH: true},
+		sym{K: 'R', ID: idLow}, sym{K: 'W', ID: idLow, W: 1}, sym{K: 'D', ID: idLow, ES: true},
 	)
 	return a
 }
@@ -220,6 +225,16 @@ func (m *model) step(f sym) expect {
 			return e
 		}
 		return none("PRIORITY is allowed in any state (5.1, 6.3)", key)
+	case 'M':
+		if st.st == stIdle {
+			return expect{S: []uint32{cProtocol}, Why: "malformed request (8.1.2.6): a stream error, and the handler does not run", Key: key}
+		}
+		if st.st == stOpen {
+			return expect{S: []uint32{cProtocol}, Why: "malformed trailers (pseudo-headers and a connection-specific field, 8.1.2.1/8.1.2.2): a stream error", Key: key + "[trailers]"}
+		}
+		g := f
+		g.K = 'H'
+		return m.step(g)
 	case 'H':
 		switch st.st {
 		case stIdle:
@@ -335,7 +350,13 @@ func (m *model) commit(f sym, e expect, serverReset bool) {
 		return
 	}
 	st := m.get(f.ID)
+	if f.K == 'M' {
+		f.K = 'H'
+	}
 	if serverReset {
+		if f.K == 'H' && st.st == stIdle && f.ID > m.highest {
+			m.highest = f.ID // the id has been used, whatever became of the request (5.1.1)
+		}
 		st.st, st.how = stClosed, byServerRST
 		if m.inBlock == f.ID {
 			m.inBlock = 0
@@ -469,6 +490,10 @@ func (g *c08Gen) bytesFor(p *rt.Peer, m *model, f sym, caseID string, seq int) [
 			fl = wire.FEndStream
 		}
 		return wire.Frame(nil, wire.TData, fl, f.ID, []byte("body-"+fmt.Sprint(seq)), -1)
+	case 'M':
+		tag := fmt.Sprintf("%s.%d", caseID, f.ID)
+		blk := p.EncodeBlock([]F{{Name: ":method", Value: "POST"}, {Name: ":scheme", Value: "https"}, {Name: ":path", Value: "/" + tag}, {Name: ":authority", Value: "s.example"}, {Name: "x-vtag", Value: tag}, {Name: "connection", Value: "close"}}, nil)
+		return wire.Frame(nil, wire.THeaders, wire.FEndStream|wire.FEndHeaders, f.ID, blk, -1)
 	case 'H':
 		st := m.s[f.ID]
 		var blk []byte
